@@ -12,6 +12,8 @@
 (*         shrink the residual by a factor within [lo, hi] (hi = <<0,1>>   *)
 (*         means no upper bound)                                           *)
 (* bound : the last residual must be <= bound                              *)
+(* ceil  : a halving whose finer residual is above it is outside the       *)
+(*         asymptotic regime and is not judged                             *)
 (* The verdict names the failing clause; the harness reports it.           *)
 (***************************************************************************)
 EXTENDS Integers, Sequences, Json, IOUtils, TLC
@@ -19,6 +21,7 @@ EXTENDS Integers, Sequences, Json, IOUtils, TLC
 Traces == ndJsonDeserialize(IOEnv.LADDER_TRACES)
 
 RatioOK(t, k) ==
+  \/ t.errs[k + 1] > t.ceil       \* the finer step is not yet in the asymptotic regime: nothing to conclude
   \/ t.errs[k] <= t.floor
   \/ t.errs[k + 1] <= t.floor
   \/ /\ t.errs[k + 1] * t.lo[1] <= t.errs[k] * t.lo[2]
@@ -34,7 +37,8 @@ Verdict(t) ==
    ok |-> BadRatios(t) = {} /\ FinalOK(t),
    bad_ratio_at |-> IF BadRatios(t) = {} THEN 0 ELSE CHOOSE k \in BadRatios(t) : \A j \in BadRatios(t) : k <= j,
    final_ok |-> FinalOK(t),
-   informative |-> \E k \in t.first..(Len(t.errs) - 1) : t.errs[k] > t.floor /\ t.errs[k + 1] > t.floor]
+   informative |-> \E k \in t.first..(Len(t.errs) - 1) :
+                      t.errs[k] > t.floor /\ t.errs[k + 1] > t.floor /\ t.errs[k + 1] <= t.ceil]
 
 VARIABLES idx, done
 vars == <<idx, done>>
